@@ -18,19 +18,19 @@ CLAIMED = {
  "C07": ("exploration", "deterministic simulation with a seeded merge scheduler (uniform and PCT-like) and stray-packet injector",
          "2..4 fragmented PDUs on separately tracked fragment ids are merged in seeded order-preserving interleavings with stray packets (unknown and aliasing ids) at any position; exactly-once intact delivery with own metadata is checked per stream.",
          "Interleavings are sampled; distinct merge words are reported.", "6/C07"),
- "C10": ("exploration", "deterministic simulation: framer + two real receivers (frame walker vs isolated exact-slice receiver)",
+ "C10": ("exploration", "deterministic simulation: framer + real receivers (frame walker vs isolated exact-slice receiver; packet followed by further bytes vs shadow receiver fed the packet alone)",
          "Frames of back-to-back sender packets with padding/garbage are walked by consumed lengths and compared packet by packet with an isolated receiver fed exact slices, including rejected packets of the listed classes.",
          "Corruptions limited to one bit flip per packet in this scenario.", "6/C10"),
  "C11": ("exploration", "deterministic simulation of the sender under seeded buffer-size schedules and arbitrary context positions",
          "Context advance, slice partition, end-CRC placement, no-empty-fragment and >=7-byte progress are checked at every continuation call.",
          "Sampling; PDU to 65535.", "6/C11"),
- "C12": ("exploration", "recording CRC seam on both simulated parties + wire trailer check against a CRC generated from the polynomial",
+ "C12": ("exploration", "recording CRC seam on both simulated parties + wire trailer check against a CRC generated from the polynomial + the calculator called on arbitrary inputs",
          "Every CRC call either party makes through the public CrcCalculator seam is compared with a bitwise-derived CRC-32/MPEG-2; trailers of end packets are recomputed from the first fragment's fields.",
          "Pure clause is checked on the inputs the simulation produces.", "6/C12"),
  "C13": ("exploration", "deterministic simulation of encap_ext/decap with seeded extension chains, buffer schedules and manager tables",
          "Extension chains (optional H-LEN classes, non-final and final mandatory) round-trip through real code with receivers knowing all/some/none of the mandatory ids; constructor swept over all ids x data lengths 0..10.",
          "Constructor sweep is plain enumeration and labelled so.", "6/C13"),
- "C15": ("exploration", "deterministic simulation of the sender alone with a wire-level policy monitor over call/config/reset histories",
+ "C15": ("exploration", "deterministic simulation of the sender alone with a wire-level policy monitor over call/config/reset histories (bounded-exhaustive call sequences, then seeded)",
          "Policy bounds are read from the label-type bits of each emitted start/complete packet over histories incl. counter wrap.",
          "Counts only substituted re-use packets; max 0 = unlimited.", "6/C15"),
  "C18": ("exploration", "planner monitor: previews called before every simulated encap/encap_frag",
@@ -39,13 +39,13 @@ CLAIMED = {
  "C19": ("exploration", "receiver-side peek monitor before every simulated decap (exact slice and inside frames)",
          "get_label_or_frag_id is compared with the wire and with decap's association for every sender-produced packet, alone and followed by further bytes.",
          "", "6/C19"),
- "C03": ("fault_enumeration", "deterministic simulation with link fault injection (drop/dup/swap/flip/burst/truncate/field replacement/splice) + complete single-fault neighbourhoods of sampled base trains",
+ "C03": ("fault_enumeration", "deterministic simulation with link fault injection (drop/dup/swap/flip/burst/truncate/field replacement/splice, refused first fragments inside trains) + complete single-fault and field-value neighbourhoods of sampled base trains + bursts derived from the reference CRC by GF(2) elimination",
          "Faulted fragment trains and crafted trains are fed to the real receiver; every completion is checked against an independent reassembly + CRC oracle evaluated on the bytes actually received.",
          "Double faults sampled; single-fault neighbourhoods of sampled bases enumerated; the burst / truncation clause is asserted where the harness knows the original packet. One known finding (K1) is recorded in known_findings.json and reported as KNOWN-FINDING.", "6/C03"),
- "C05": ("fault_enumeration", "deterministic simulation: receiver driven to history-reached states, then link noise (systematic sweeps + random + mutated) with storage faults at the memory seam",
+ "C05": ("fault_enumeration", "deterministic simulation: receiver driven to history-reached states (re-established after every disturbing input), then link noise (systematic sweeps incl. every truncation + random + mutated) with storage faults and stored-context corruption at the memory seam",
          "No panic, consumed bounds and walker termination for decap and peek across receiver state classes; small input sub-spaces enumerated completely.",
          "Sweeps are enumeration and labelled so.", "6/C05"),
- "C08": ("fault_enumeration", "deterministic simulation with a ledger memory wrapper at the GseDecapMemory seam, injected memory faults incl. each trait call failed in turn",
+ "C08": ("fault_enumeration", "deterministic simulation with a ledger memory wrapper at the GseDecapMemory seam, injected memory faults (underflow, overflow, undefined id, refused save, corrupted stored context) incl. each trait call failed in turn",
          "Buffer conservation ledger + audit through the trait after every call, across rejection classes and memory faults.",
          "MemoryCorrupted from save_frag carries no buffer: excluded.", "6/C08"),
  "C09": ("exploration", "deterministic simulation of the sender with a shadow twin and bad-request fault injection",
@@ -54,7 +54,7 @@ CLAIMED = {
  "C16": ("exploration", "deterministic simulation: arbitrary faulty receiver history, then faults stop and a probe transfer must succeed (bounded liveness)",
          "Probe complete packet or fragmented PDU must be delivered within its own packets after any prefix.",
          "", "6/C16"),
- "C17": ("exploration", "component-level simulation of SimpleGseMemory against an executable bag+slots reference model",
+ "C17": ("exploration", "component-level simulation of SimpleGseMemory against an executable bag+slots reference model (bounded-exhaustive operation sequences, then seeded)",
          "Lock-step refinement check over seeded op histories, 1..4 slots, aliasing ids.",
          "", "6/C17"),
 }
